@@ -61,14 +61,23 @@ Theorem C18_read_or_eof_complete : forall amt data o g d o', read_or_eof amt dat
   data = g ++ d /\ (length g = amt \/ d = []).
 Proof. exact read_or_eof_complete. Qed.
 
-(* ReadCompressed over concatenated members, decompressors as oracles: for every split of the compressed bytes into
+(* ReadCompressed over concatenated members (every member after the first starts with the magic of its format: wf),
+   decompressors as oracles: for every split of the compressed bytes into
    read() calls (fdo), every input/output granularity of the decompressors (deco) and every sequence of request sizes,
    the calls deliver the concatenated plaintext in order, never more than asked, nothing lost or repeated, and return
    0 only when nothing was asked for or nothing is left -- hence 0 for ever after the end (good_reads spells this out) *)
-Theorem C18_members_concat : forall members fdo deco reqs,
+Theorem C18_members_concat : forall members fdo deco reqs, Forall wf (tl members) ->
   exists chunks, rc_read_all reqs (rc_open members fdo deco) = Some chunks /\
                  good_reads (concat (map m_plain members)) reqs chunks.
 Proof. exact members_concat. Qed.
+
+(* magic recognition at a member boundary: the header ReadFactory examines is the first kMagicSize bytes of the compressed
+   stream that remains, for every split of it between left-over bytes of the input buffer and bytes still to be read, and
+   for every read() chunking (so a member that starts 1..5 bytes before the end of an input buffer is recognised) *)
+Theorem C18_header_is_stream_prefix : forall s,
+  firstn kMagicSize (r_in (open_member s)) = firstn kMagicSize (r_in s ++ r_fd s) /\
+  (r_in (open_member s) = [] <-> r_in s ++ r_fd s = []).
+Proof. exact open_member_header. Qed.
 
 Theorem C18_good_reads_meaning : forall reqs plain chunks, good_reads plain reqs chunks ->
   (exists rest, plain = concat chunks ++ rest) /\ (plain = [] -> Forall (fun c => c = []) chunks).
